@@ -6,21 +6,23 @@ LEVEL_TEXT = ("Coq theorems over ALL schedules of the hub/listener model (histor
               "real v1/v2 socket listeners on generated histories. *Partial*: 'never blocking the hub' holds only while no open listener's "
               "queue is full (open finding K-C15-slow-listener: refuted by a machine-checked witness).")
 LEVEL_NOTE = ("The theorems are about coq/Model/Hub.v (one listener call = one step; Go channels as FIFO lists, select on a closed "
-              "listener as a schedule choice, map iteration order fixed — shown irrelevant unless the hub blocks). The websocket peer is "
+              "listener as a schedule choice, map iteration order fixed — shown irrelevant unless the hub blocks: broadcast_order_diamond). "
               "In Model/HubFed.v the broker's delivery step FDeliver (pop the head of the pending list AND call hub.Dispatch) is ONE atomic step; in the "
               "code the pop happens under the listener's lock and the call after it — harmless because each listener function has a single delivery goroutine. "
               "faulty_listener_isolated is each_event_once_in_order restated (the entitlement ignores ops about other listeners by definition of view_step): "
               "the isolation content is that each_event_once_in_order holds over all schedules INCLUDING the other listeners' failures and closes; "
-              "'is dropped' is error_unregisters / remove_unregisters / dropped_listener_never_called_again. The websocket peer is "
-              "replaced by the harness (constructor hook pkg/rest/verif_export.go): gorilla/websocket I/O, ping/pong and the 10 s write "
-              "deadline are not exercised. The tie between model and code is sampled (differential testing).")
+              "'is dropped' is error_unregisters / remove_unregisters / dropped_listener_never_called_again. "
+              "In the hub histories (kind hub) the websocket peer is replaced by the harness (constructor hook pkg/rest/verif_export.go: the harness "
+              "plays WSWriter/WSReader); the `ws` stream runs the real WSReader/WSWriter and JSON encoding against a real gorilla/websocket client, "
+              "but the WebSocket framing, ping/pong and the 10 s write deadline are not modelled (the model's unit is the event handed to the writer). "
+              "The tie between model and code is sampled (differential testing).")
 TECHNIQUE = "machine-checked proof in Coq + model/code correspondence check"
 DESIGN_REF = "DESIGN.md §4 C15"
 RULE = ("hub: one line = history length N + a history of ops run by one goroutine against a real hub: joins of real v1/v2 listeners "
         "(all/one mailbox) and of harness listeners that fail after f calls, dispatches, deletes (known, unknown, duplicate ids), "
         "RemoveListener, listener Close with events buffered, writer steps, Sync, and a gate that parks the hub goroutine mid-broadcast so "
         "that closes/writer steps happen while ops are queued. Families: mixed, mixed+gate, queue-boundary (exactly full, never waiting), "
-        "slow listener (open finding), history longer than the queue. asm15: the hub of the assembled server (server.FullAssembly + Services.Start, child process) fed through the real extension events (ExtHost.Events.AfterMessageStored, i.e. through the asynchronous broker) with a burst of 50-400 events: an attached monitor gets each once in order and a late joiner exactly the retained history. fed: msghub.New wired to an extension host; <events> stored events (and then a few deleted ones) are emitted on ExtHost.Events, i.e. travel through the asynchronous brokers into hub.Dispatch/hub.Delete; monitor 1 attached before the burst, optionally a monitor that fails after k calls, monitor 2 attached after everything settled; the expected streams are computed by the composed model Model/HubFed.v. distinct = distinct input line; non-trivial = at least one listener "
+        "slow listener (open finding), history longer than the queue. asm15: the hub of the assembled server (server.FullAssembly + Services.Start, child process) fed through the real extension events (ExtHost.Events.AfterMessageStored, i.e. through the asynchronous broker) with a burst of 50-400 events: an attached monitor gets each once in order and a late joiner exactly the retained history. ws: the real HTTP handlers (rest.SetupRoutes on web.Router behind an httptest server) and a real WebSocket client on /api/v1|v2/monitor/messages[/<mailbox>], i.e. the real WSReader/WSWriter: events dispatched before the join (history replay) and in a burst while the client is not reading, then read message by message — every WebSocket message must carry exactly one JSON document and the sequence must be the listener's entitlement. fed: msghub.New wired to an extension host; <events> stored events (and then a few deleted ones) are emitted on ExtHost.Events, i.e. travel through the asynchronous brokers into hub.Dispatch/hub.Delete; monitor 1 attached before the burst, optionally a monitor that fails after k calls, monitor 2 attached after everything settled; the expected streams are computed by the composed model Model/HubFed.v. distinct = distinct input line; non-trivial = at least one listener "
         "joined and one event dispatched.")
 TRUSTED = ["a closed listener's queue is read by nobody (the harness looks at what was buffered only at the end of the case)",
            "Go channels/select/sync.Once behave as modelled (FIFO bounded queue; a send on a full channel waits; select picks any ready branch)",
@@ -35,7 +37,7 @@ KNOWN_MUST_REPRODUCE = True
 
 
 def nontrivial(kind, ins, outs):
-    if kind in ("fed", "fedstop"):
+    if kind in ("fed", "fedstop", "ws"):
         return True
     if kind == "asm15":
         return True
